@@ -64,6 +64,25 @@ async fn fs_model_line(vault: &std::path::Path, log: &std::path::Path) -> anyhow
     Ok(format!("integrity report vault={} log={} vrows={} erows={}", vp as u8, lp as u8, model_rows(&vr), model_rows(&er)))
 }
 
+/// The same model line from the sqlite rows of one folder: the vault is present when the folder row exists,
+/// the log when the folder has at least one event row; a vault row's content is meta || secret.
+async fn db_model_line(client: &sos_database::async_sqlite::Client, fid: String) -> Option<String> {
+    type Rows = Vec<(Vec<u8>, Vec<u8>)>;
+    let r: Result<(bool, Rows, Rows), _> = client.conn(move |conn| {
+        let row: Option<i64> = conn.query_row("SELECT folder_id FROM folders WHERE identifier = ?1", [&fid], |r| r.get(0)).ok();
+        let Some(row) = row else { return Ok((false, vec![], vec![])) };
+        let vr: Rows = { let mut st = conn.prepare("SELECT meta, secret, commit_hash FROM folder_secrets WHERE folder_id = ?1 ORDER BY secret_id ASC")?;
+            let it = st.query_map([row], |r| { let mut c: Vec<u8> = r.get(0)?; let s: Vec<u8> = r.get(1)?; c.extend_from_slice(&s); Ok((c, r.get::<_, Vec<u8>>(2)?)) })?; it.filter_map(|x| x.ok()).collect() };
+        let er: Rows = { let mut st = conn.prepare("SELECT event, commit_hash FROM folder_events WHERE folder_id = ?1 ORDER BY event_id ASC")?;
+            let it = st.query_map([row], |r| Ok((r.get(0)?, r.get(1)?)))?; it.filter_map(|x| x.ok()).collect() };
+        Ok((true, vr, er))
+    }).await;
+    let (vp, vr, er) = r.ok()?;
+    let lp = vp && !er.is_empty();
+    let (vr, er) = if vp && lp { (vr, er) } else { (vec![], vec![]) };
+    Some(format!("integrity report vault={} log={} vrows={} erows={}", vp as u8, lp as u8, model_rows(&vr), model_rows(&er)))
+}
+
 pub async fn run_case(backend: &str, seed: u64, rep: &mut Report, ops: &mut Vec<String>, imp: &mut Vec<String>, thorough: bool) -> anyhow::Result<()> {
     let mut rng = Rng::new(seed ^ 0x16);
     let w = World::new(1, backend).await?;
@@ -144,6 +163,9 @@ pub async fn run_case(backend: &str, seed: u64, rep: &mut Report, ops: &mut Vec<
             }
         }
         BackendTarget::Database(_, client) => {
+            for s in folders.iter() {
+                if let Some(l) = db_model_line(client, s.id().to_string()).await { if l.len() < 60000 { ops.push(l); imp.push(format!("failures={} missing=0", clean.get(s.id()).copied().unwrap_or(0))); } }
+            }
             // flip one bit of one cell: folder_secrets.{meta,secret,commit_hash}, folder_events.{event,commit_hash}
             let cells = [("folder_secrets", "secret_id", "meta", "vault-row-content"), ("folder_secrets", "secret_id", "secret", "vault-row-content"),
                 ("folder_secrets", "secret_id", "commit_hash", "vault-row-checksum"), ("folder_events", "event_id", "event", "event-record-content"),
@@ -173,6 +195,7 @@ pub async fn run_case(backend: &str, seed: u64, rep: &mut Report, ops: &mut Vec<
                 let Ok(Some((row_id, orig, fid_s))) = r else { continue };
                 let fid: VaultId = fid_s.parse()?;
                 let rr = run_report(&target, &account_id, folders.clone()).await;
+                let line = db_model_line(client, fid_s.clone()).await;
                 let q_upd3 = q_upd.clone();
                 let _ = client.conn_mut(move |conn| { conn.execute(&q_upd3, (orig, row_id))?; Ok(()) }).await;
                 rep.case(&format!("{backend}:{seed}:{table}:{col}:{row_id}:{off_seed}:{bit}"), true);
@@ -183,6 +206,7 @@ pub async fn run_case(backend: &str, seed: u64, rep: &mut Report, ops: &mut Vec<
                         let n = f.get(&fid).copied().unwrap_or(0);
                         rep.count(&format!("{backend}:{kind}:{}", if n > 0 { "flagged" } else { "missed" }));
                         if n == 0 { rep.spec_fail(&format!("c16-corruption-not-reported-{kind}-{backend}"), json!({"case_seed": seed, "backend": backend, "table": table, "column": col, "row": row_id}), "a flipped bit in a content / checksum cell is not reported"); }
+                        if let Some(l) = line { if l.len() < 60000 { ops.push(l); imp.push(format!("failures={} missing=0", n)); } }
                     }
                     Err(e) => rep.spec_fail(&format!("c16-report-error-{backend}"), json!({"case_seed": seed, "table": table, "column": col}), &e),
                 }
@@ -200,12 +224,14 @@ pub async fn run_case(backend: &str, seed: u64, rep: &mut Report, ops: &mut Vec<
                 }).await;
                 let Ok(saved) = saved else { rep.notes.push("db log removal: could not read the folder's events".into()); continue };
                 let rr = run_report(&target, &account_id, folders.clone()).await;
+                let line = db_model_line(client, fid.to_string()).await;
                 let n_saved = saved.len();
                 let _ = client.conn_mut(move |conn| { for (f, t, c, e) in saved { conn.execute("INSERT INTO folder_events (folder_id, created_at, commit_hash, event) VALUES (?1, ?2, ?3, ?4)", (f, t, c, e))?; } Ok(()) }).await;
                 rep.case(&format!("{backend}:{seed}:{fid}:log-removed"), true);
                 if let Ok(f) = rr {
                     let n = f.get(&fid).copied().unwrap_or(0);
                     rep.count(&format!("{backend}:log-removed:{}", if n > 0 { "flagged" } else { "missed" }));
+                    if let Some(l) = line { ops.push(l); imp.push(format!("failures={} missing={}", n, n)); }
                     if n == 0 { rep.spec_fail(&format!("c16-removal-not-reported-log-removed-{backend}"), json!({"case_seed": seed, "backend": backend, "folder": fid.to_string(), "events": n_saved}), "a folder whose event rows were all removed is not reported"); }
                 }
                 // the restored log must be clean again (the harness put back what it took)
@@ -222,6 +248,7 @@ pub async fn run_case(backend: &str, seed: u64, rep: &mut Report, ops: &mut Vec<
                     if let Ok(f) = run_report(&target, &account_id, folders.clone()).await {
                         let n = f.get(&fid).copied().unwrap_or(0);
                         rep.count(&format!("{backend}:vault-removed:{}", if n > 0 { "flagged" } else { "missed" }));
+                        if let Some(l) = db_model_line(client, fid.to_string()).await { ops.push(l); imp.push(format!("failures={} missing={}", n, n)); }
                         if n == 0 { rep.spec_fail(&format!("c16-removal-not-reported-vault-removed-{backend}"), json!({"case_seed": seed, "backend": backend, "folder": fid.to_string()}), "a folder whose row was removed is not reported"); }
                     }
                 }
